@@ -15,6 +15,7 @@ pub uninterp spec fn borrowed_from_c(id: int) -> bool; // lent by a C caller: mu
 #[verifier::external_body]
 pub struct OwnedFd { _p: () }
 impl OwnedFd { pub uninterp spec fn id(&self) -> int; }
+impl core::fmt::Debug for OwnedFd { #[verifier::external_body] fn fmt(&self, f: &mut core::fmt::Formatter<'_>) -> core::fmt::Result { unimplemented!() } }
 
 #[derive(Clone, Copy)]
 pub struct BorrowedFd<'a> { pub id: Ghost<int>, pub _p: core::marker::PhantomData<&'a ()> }
@@ -87,3 +88,12 @@ pub uninterp spec fn follow_checked(dir: int, link: int) -> bool;    // may_foll
 /// the link was opened as an entry of a directory against which the protected_symlinks rule was evaluated
 pub open spec fn follow_checked_in_parent(link: int) -> bool { exists|d: int, n: Seq<u8>| (#[trigger] opened_from(link, d, n)) && follow_checked(d, link) }
 pub uninterp spec fn no_symlinks_requested() -> bool;     // rigid: the operation was asked not to follow any link
+pub uninterp spec fn kflags64(id: int) -> u64;       // openat2: how.flags as given to the kernel
+pub uninterp spec fn resolve_bits_of(id: int) -> u64; // openat2: how.resolve as given to the kernel
+pub open spec fn resolve_confined(r: u64) -> bool { r & 0x12u64 == 0x12u64 || r & 0x0bu64 == 0x0bu64 }
+pub open spec fn beneath_noxdev(r: u64) -> bool { r & 0x0bu64 == 0x0bu64 }
+/// definition of the token `resolved_from`: `h` is what the resolver returned for (root, path, nofollow)
+pub proof fn axiom_resolution_result(h: int, root: int, path: Seq<u8>, nofollow: bool)
+    requires lineage(h),          // [C01+C02.resolution_result.only_in_root_handles_are_results]
+    ensures resolved_from(h, root, path, nofollow)
+{ admit(); }
